@@ -9,7 +9,7 @@ lattice  {'anchor': [ax, ay], 'dh': h, 'cells': [[cx, cy], ...], 'mask': [1, 0, 
          the cell (cx, cy) has the origin closest-float(ax + cx*h, ay + cy*h) computed in decimal
          arithmetic on the decimal description; cells are listed in arbitrary order (= polygon
          order = cell index); mask flag 1 = active cell, 0 = flagged out (CSEP file convention)
-     or  {'shipped': '<name of a region function in csep.core.regions>'}
+     or  {'shipped': '<name of a region function in csep.core.regions>', 'kwargs': {...} (optional)}
          the lattice is read off the origins the built region reports.
 quadtree {'zoom': L} | {'quadkeys': [...]} | {'catalog_points': [[lon, lat], ...], 'threshold': t, 'zoom': L}
 events   [[id, origin_time_ms, latitude, longitude, depth, magnitude], ...]  (CSEPCatalog field order)
@@ -68,7 +68,7 @@ def _build_region(lat, magnitudes=None):
     from csep.core import regions
     from csep.models import Polygon
     if 'shipped' in lat:
-        return getattr(regions, lat['shipped'])()
+        return getattr(regions, lat['shipped'])(**lat.get('kwargs', {}))
     origins = lattice_origins(lat)
     dh = float(lat['dh'])
     mask = lat.get('mask')
